@@ -351,7 +351,13 @@ Definition expected_star (s : srt) : hterm := apply_mw HOptions OPTIONS [] (c_ro
 
 Definition serve_clauses (s : srt) (o : line) (r : list bytes) : list bytes :=
   let method := arg 1 o in let path := arg 2 o in
-  if obs_is r "panic" then [cl "C05:serve-panics"; cl "C03:serve-panics"] else
+  if obs_is r "panic" then
+    [cl "C05:serve-panics"; cl "C03:serve-panics"] ++
+    (* the automatic handlers must exist wherever a route exists: a fault on OPTIONS / HEAD / an unregistered
+       method of a live pattern is a missing automatic handler *)
+    (if beqb method OPTIONS then [cl "C08:options-not-automatic"] else []) ++
+    (if beqb method HEAD then [cl "C08:head-iff-get"] else [])
+  else
   if unsup s then [] else
   let term := nth 1 r [] in let core := nth 2 r [] in let hasnode := beqb (nth 3 r []) (bs "1") in
   let pat := nth 4 r [] in let methods := nth 5 r [] in let allow := nth 6 r [] in let cap := nth 7 r [] in
